@@ -41,6 +41,10 @@ REQUIRED = {'ha': ['n1', 'n2', 'pmin', 'pmax', 'uq'], 'sm': ['n1', 'pmin', 'pmax
 BANNED = {'ha': ['twopl', 'n3', 't2', 'llq', 'luq', 'lt'], 'sm': ['n2', 'n3', 'uq', 'lq', 'llq', 'luq', 'lt'],
           'hr': ['n3', 'llq', 'luq', 'lt'], 'spa': []}
 ALL = list(INT_FLAGS) + list(REAL_FLAGS) + ['twopl']
+LONG = {'n1': '--numberofagents1', 'n2': '--numberofagents2', 'n3': '--numberofagents3', 'pmin': '--minpreflistlength',
+        'pmax': '--maxpreflistlength', 'lq': '--lowerquotas', 'uq': '--upperquotas', 'llq': '--lecturerlowerquotas',
+        'luq': '--lecturerupperquotas', 'lt': '--lecturertargets', 't1': '--ties1', 't2': '--ties2', 'skew': '--linearskew',
+        'twopl': '--preferencelists2', 'numinst': '--numberinstances', 'mp': '--matchingproblem', 'o': '--outputdirectory'}
 
 
 def BOUNDS(tier):
@@ -64,6 +68,11 @@ def tasks(tier, seed):
                 sets.append(req + [a, b])
         for ps in sets:
             out.append({'mp': mp, 'present': ps})
+        # the documented long spellings (required set, one required flag removed, one inapplicable flag added)
+        out.append({'mp': mp, 'present': list(req), 'long': True})
+        out.append({'mp': mp, 'present': list(req)[1:], 'long': True})
+        for a in BANNED[mp][:3]:
+            out.append({'mp': mp, 'present': req + [a], 'long': True})
     return out
 
 
@@ -131,11 +140,16 @@ def spec_formulas(mp, present, v):
     return must_accept, must_reject
 
 
-def build_argv(mp, present, tok, outdir):
-    argv = ['-numinst', tok('numinst'), '-o', outdir, '-mp', mp]
+def build_argv(mp, present, tok, outdir, long=False):
+    if long:
+        argv = [LONG['numinst'], tok('numinst'), LONG['o'], outdir, LONG['mp'], mp]
+    else:
+        argv = ['-numinst', tok('numinst'), '-o', outdir, '-mp', mp]
     for p in present:
         if p == 'twopl':
-            argv.append('-twopl')
+            argv.append(LONG['twopl'] if long else '-twopl')
+        elif long:
+            argv += [LONG[p], tok(p)]
         elif p in INT_FLAGS:
             argv += [INT_FLAGS[p], tok(p)]
         else:
@@ -161,7 +175,7 @@ def run_task(task):
         e.notes['v'] = v
         iop.int, iop.float = S.sym_int, S.sym_float
         try:
-            argv = build_argv(mp, present, lambda k: e.token(v[k]), '/nonexistent/vf_c15_out')
+            argv = build_argv(mp, present, lambda k: e.token(v[k]), '/nonexistent/vf_c15_out', long=task.get('long', False))
             with contextlib.redirect_stderr(io.StringIO()):
                 args = iop.Instance_options_parser().parse(argv)
             return 'accepted'
@@ -196,7 +210,7 @@ def run_task(task):
             tags[tag] = tags.get(tag, 0) + 1
             if tags[tag] <= 2:
                 res['cex'].append({'tag': tag, 'what': '%s (%s, flags %s)' % (why, mp, present),
-                                   'data': {'mp': mp, 'present': present, 'values': concrete(v, m), 'expect': {'accepted': 'exit2', 'exit2': 'accepted', 'raised': 'no-exception'}[outcome]}})
+                                   'data': {'mp': mp, 'present': present, 'long': task.get('long', False), 'values': concrete(v, m), 'expect': {'accepted': 'exit2', 'exit2': 'accepted', 'raised': 'no-exception'}[outcome]}})
             continue
         # concrete witness of this path through the real Generator
         res['obligations'] += 1
@@ -204,7 +218,7 @@ def run_task(task):
         if wit is None:
             res['discharged'] += 1
             continue
-        out = real_generator(ns, mp, present, wit)
+        out = real_generator(ns, mp, present, wit, long=task.get('long', False))
         ok = (out['outcome'] == outcome) and (out['created'] == (outcome == 'accepted')) and (outcome != 'accepted' or out['files_ok'])
         if ok:
             res['discharged'] += 1
@@ -213,7 +227,7 @@ def run_task(task):
             tags[tag] = tags.get(tag, 0) + 1
             if tags[tag] <= 2:
                 res['cex'].append({'tag': tag, 'what': 'parser path says %s, real Generator run: %s, output created: %s' % (outcome, out['outcome'], out['created']),
-                                   'data': {'mp': mp, 'present': present, 'values': wit, 'expect': outcome}})
+                                   'data': {'mp': mp, 'present': present, 'long': task.get('long', False), 'values': wit, 'expect': outcome}})
     res['sample'] = {'mp': mp, 'present': present, 'paths': len(paths)}
     return res
 
@@ -243,10 +257,10 @@ def witness(pc, v):
     return w
 
 
-def real_generator(ns, mp, present, values):
+def real_generator(ns, mp, present, values, long=False):
     tmp = tempfile.mkdtemp(prefix='vf_c15_')
     outdir = os.path.join(tmp, 'out', 'instances')
-    argv = build_argv(mp, present, lambda k: repr(values[k]) if isinstance(values[k], float) else str(values[k]), outdir)
+    argv = build_argv(mp, present, lambda k: repr(values[k]) if isinstance(values[k], float) else str(values[k]), outdir, long=long)
     res = {'argv': argv}
     try:
         with contextlib.redirect_stderr(io.StringIO()):
@@ -275,7 +289,7 @@ def replay(cex):
     real_generator(ns, 'ha', ['n1', 'n2', 'pmin', 'pmax'], {'numinst': 1, 'n1': 1, 'n2': 1, 'pmin': 1, 'pmax': 1})
     real_generator(ns, 'hr', ['n1', 'n2', 'pmin', 'pmax', 'uq', 'twopl', 'n3'], {'numinst': 1, 'n1': 1, 'n2': 1, 'pmin': 1, 'pmax': 1, 'uq': 1, 'n3': 1})
     real_generator(ns, 'ha', ['n1', 'n2', 'pmin', 'pmax', 'uq'], {'numinst': 1, 'n1': 1, 'n2': 1, 'pmin': 1, 'pmax': 1, 'uq': 1})
-    out = real_generator(ns, d['mp'], d['present'], d['values'])
+    out = real_generator(ns, d['mp'], d['present'], d['values'], long=d.get('long', False))
     exp = d['expect']
     if exp == 'accepted':
         bad = not (out['outcome'] == 'accepted' and out['files_ok'])
